@@ -247,6 +247,34 @@ theorem params_sticky (t : Tx) (sheet src : Nat) (ssrc dsrc : String) (mid : Sta
   refine ⟨?_, rfl, ?_, ?_, ?_, ?_, rfl, rfl⟩ <;>
     (simp only [step]; cases t.sheets.lookup sheet <;> cases t.sources.lookup src <;> rfl)
 
+/-- **config_last_write_wins.** Reference semantics of every per-transformer configuration operation (install /
+uninstall an extension function under a QName, locally or process-wide; set an option; add / remove a listener): for
+*every* history of `set key value` / `remove key` operations and every key, the model's configuration holds exactly what
+the history's last operation on that key says — the value of the last `set`, nothing after a `remove`, nothing if the key
+was never set.  The API model files functions, global functions and options with exactly these operations
+(`step`: `putA` / `removeA`), and the correspondence run gives a fresh transformer this net configuration. -/
+theorem config_last_write_wins (ops : List COp) (k : String) :
+    (ops.foldl applyC []).lookup k = ops.foldl (lastWrite k) none :=
+  foldl_applyC_lookup ops [] k
+
+example : ([COp.set "f1" "v1", .set "g" "x", .set "f1" "v2", .remove "g"].foldl applyC []).lookup "f1" = some "v2" ∧
+    ([COp.set "f1" "v1", .set "g" "x", .set "f1" "v2", .remove "g"].foldl applyC []).lookup "g" = none := by decide
+
+/-- **config_setters_replace.** Every configuration setter performs a container operation compatible with that
+reference semantics (closed check over `Generated.setterOps`, which the translator derives from each function that
+writes a sticky / configuration member of the transformer or its execution context): map members are written through
+`operator[]` assignment / `erase` / `clear`, never `insert` (which keeps an existing entry); scalar options are assigned
+unconditionally; the local and process-wide function tables replace or erase an existing entry. -/
+theorem config_setters_replace : setterOps.all (fun x => x.2) = true ∧ setterOps.length ≥ 20 := by decide +kernel
+
+/-- the model's `install` / `uninstall` / `ginstall` / `guninstall` / `config` steps are these map operations -/
+theorem config_steps_are_map_ops (t : Tx) (f i : String) :
+    (step t (.install f i)).1.funcs = applyC t.funcs (.set f i) ∧
+    (step t (.uninstall f)).1.funcs = applyC t.funcs (.remove f) ∧
+    (step t (.ginstall f i)).1.gfuncs = applyC t.gfuncs (.set f i) ∧
+    (step t (.guninstall f)).1.gfuncs = applyC t.gfuncs (.remove f) ∧
+    (step t (.config f i)).1.config = applyC t.config (.set f i) := ⟨rfl, rfl, rfl, rfl, rfl⟩
+
 /-- **param_last_write_wins.** If setting a parameter one way dropped the value stored the other way
 (`clearsOther`, i.e. with `proposed/C06-param-overwrite.diff`), the stylesheet would always see the
 value of the *last* `setStylesheetParam` call for that key, and other keys would be unaffected. -/
